@@ -221,6 +221,9 @@ private:
             code != control_code_e::disconnect;
 
         if (is_reply) {
+            if (std::distance(first, last) < static_cast<std::ptrdiff_t>(sizeof(uint16_t)))
+                return complete(client::error::malformed_packet, 0, {}, {});
+
             auto packet_id = decoders::decode_packet_id(first).value();
             _svc._replies.dispatch(error_code {}, code, packet_id, first, last);
             return perform(asio::transfer_at_least(0));
